@@ -40,6 +40,64 @@ EXPECT_AA_PARTIAL = (
 )
 
 
+EXPECT_CODON_ENCODING = (
+    "n1 = NucleotideDataType.NUCLEOTIDE_STATES[ord(codon[0])]\n"
+    "n2 = NucleotideDataType.NUCLEOTIDE_STATES[ord(codon[1])]\n"
+    "n3 = NucleotideDataType.NUCLEOTIDE_STATES[ord(codon[2])]\n"
+    "encoding = 65\n"
+    "if n1 <= 3 and n2 <= 3 and (n3 <= 3):\n"
+    "    encoding = n1 * 16 + n2 * 4 + n3\n"
+    "    encoding -= self.stop_count[encoding]\n"
+    "return encoding"
+)
+EXPECT_CODON_PARTIAL = (
+    "encoding = self.encoding(string)\n"
+    "if encoding == 65:\n"
+    "    p = [1.0] * self._state_count\n"
+    "else:\n"
+    "    p = [0.0] * self._state_count\n"
+    "    p[encoding] = 1.0\n"
+    "return tuple(p)"
+)
+EXPECT_CODON_INIT = (
+    "index = [code.lower() for code in CodonDataType.GENETIC_CODE_NAMES].index(genetic_code.lower())\n"
+    "self.name = CodonDataType.GENETIC_CODE_NAMES[index]\n"
+    "self._state_count = CodonDataType.NUMBER_OF_CODONS[index]\n"
+    "self.table = CodonDataType.GENETIC_CODE_TABLES[index]\n"
+    "self.triplets = CodonDataType.CODON_TRIPLETS\n"
+    "nuc_type = NucleotideDataType(None)\n"
+    "fn = lambda codon: nuc_type.encoding(codon[0]) * 16 + nuc_type.encoding(codon[1]) * 4 + nuc_type.encoding(codon[2])\n"
+    "states = tuple((codon for i, codon in enumerate(self.triplets[:64]) if self.table[fn(codon)] != '*'))\n"
+    "self.stop_count = np.array([int(codon == '*') for codon in self.table]).cumsum()\n"
+    "super().__init__(id_, states)"
+)
+EXPECT_GENERAL_INIT = (
+    "super().__init__(id_, codes)\n"
+    "self.codes = {code: idx for idx, code in enumerate(codes)}\n"
+    "self._encoding = self.codes.copy()\n"
+    "self.ambiguities = ambiguities\n"
+    "for ambiguity in ambiguities.keys():\n"
+    "    self.codes[ambiguity] = np.array([self.codes[s] for s in ambiguities[ambiguity]])\n"
+    "    if not isinstance(ambiguities[ambiguity], list) or len(ambiguities[ambiguity]) == 1:\n"
+    "        self._encoding[ambiguity] = self.codes[ambiguities[ambiguity]]"
+)
+EXPECT_GENERAL_ENCODING = "return self._encoding.get(string, self.state_count)"
+EXPECT_GENERAL_PARTIAL = (
+    "if string in self.codes:\n"
+    "    p = np.zeros(self.state_count)\n"
+    "    p[self.codes[string]] = 1.0\n"
+    "else:\n"
+    "    p = np.ones(self.state_count)\n"
+    "return tuple(p)"
+)
+EXPECT_ABSTRACT_INIT = (
+    "super().__init__(id_)\n"
+    "self._states = states\n"
+    "self._state_count = len(states)\n"
+    "self._size = len(states[0])"
+)
+
+
 def body_src(fn: ast.FunctionDef) -> str:
     body = fn.body
     if body and isinstance(body[0], ast.Expr) and isinstance(body[0].value, ast.Constant) and isinstance(body[0].value.value, str):
@@ -171,12 +229,40 @@ def translate(repo: Path):
             raise Unrecognised("NUCLEOTIDE_AMBIGUITY_STATES: AST literal differs from imported value")
         aa_rows = zero_one_rows(aa_cls.AMINO_ACIDS_AMBIGUITY_STATES, 20, "AMINO_ACIDS_AMBIGUITY_STATES")
         aa_alphabet = aa_cls.AMINO_ACIDS
+        # ---- CodonDataType: every genetic code shipped
+        cod = find_class(tree, "CodonDataType")
+        code_tables = ast.literal_eval(class_assign(cod, "GENETIC_CODE_TABLES"))
+        code_names = ast.literal_eval(class_assign(cod, "GENETIC_CODE_NAMES"))
+        n_codons = ast.literal_eval(class_assign(cod, "NUMBER_OF_CODONS"))
+        triplets = ast.literal_eval(class_assign(cod, "CODON_TRIPLETS"))
+        if not (isinstance(code_tables, tuple) and all(isinstance(t, str) and len(t) == 64 and all(ord(c) < 128 for c in t) for t in code_tables)):
+            raise Unrecognised("GENETIC_CODE_TABLES is not a tuple of 64-character ASCII strings")
+        if not (len(code_names) == len(code_tables) == len(n_codons) and all(isinstance(x, int) for x in n_codons)):
+            raise Unrecognised("GENETIC_CODE_NAMES / NUMBER_OF_CODONS do not match GENETIC_CODE_TABLES")
+        if not (isinstance(triplets, tuple) and all(isinstance(t, str) and len(t) == 3 for t in triplets)):
+            raise Unrecognised("CODON_TRIPLETS is not a tuple of 3-character strings")
+        for meth, want in (("encoding", EXPECT_CODON_ENCODING), ("partial", EXPECT_CODON_PARTIAL), ("__init__", EXPECT_CODON_INIT)):
+            got = body_src(method(cod, meth))
+            if got != want:
+                raise Unrecognised(f"CodonDataType.{meth} body: " + got)
+        if tuple(mod.CodonDataType.GENETIC_CODE_TABLES) != tuple(code_tables) or tuple(mod.CodonDataType.CODON_TRIPLETS) != tuple(triplets):
+            raise Unrecognised("codon tables: AST literal differs from imported value")
+        absd = find_class(tree, "AbstractDataType")
+        if body_src(method(absd, "__init__")) != EXPECT_ABSTRACT_INIT:
+            raise Unrecognised("AbstractDataType.__init__ body: " + body_src(method(absd, "__init__")))
+        # ---- GeneralDataType: no table, the three methods are hand-modelled; their shape is checked
+        gen = find_class(tree, "GeneralDataType")
+        for meth, want in (("__init__", EXPECT_GENERAL_INIT), ("encoding", EXPECT_GENERAL_ENCODING), ("partial", EXPECT_GENERAL_PARTIAL)):
+            got = body_src(method(gen, meth))
+            if got != want:
+                raise Unrecognised(f"GeneralDataType.{meth} body: " + got)
         recognised = True
     except (Unrecognised, SyntaxError, ValueError, OSError, ImportError, AttributeError) as e:
         recognised = False
         note = f"{type(e).__name__}: {e}"
         states, ambig_rows, lit, nuc_states_tuple = (), [], "", ()
         aa_states, aa_rows, alit, aa_alphabet = (), [], "", ""
+        code_tables, code_names, n_codons, triplets = (), (), (), ()
 
     hdr_note = note.replace("-/", "- /").replace("\n", " ")[:400]
     lines = [
@@ -208,6 +294,19 @@ def translate(repo: Path):
         "",
         "/-- `AminoAcidDataType.AMINO_ACIDS[:20]` -/",
         f"def aaStateChars : List Nat := {lean_char_list(aa_alphabet[:20])}",
+        "",
+        "/-- `CodonDataType.GENETIC_CODE_TABLES`: per genetic code, the amino acid (code point; `*` = 42 = stop) of the",
+        "    64 triplets in the order AAA, AAC, AAG, AAT, ACA, … -/",
+        "def geneticCodes : List (List Nat) := [" + ",\n  ".join(lean_char_list(t) for t in code_tables) + "]",
+        "",
+        "/-- `CodonDataType.GENETIC_CODE_NAMES` -/",
+        "def geneticCodeNames : List String := [" + ", ".join('"' + nm.replace('"', "") + '"' for nm in code_names) + "]",
+        "",
+        "/-- `CodonDataType.NUMBER_OF_CODONS` -/",
+        f"def numberOfCodons : List Nat := {lean_nat_list(n_codons)}",
+        "",
+        "/-- `CodonDataType.CODON_TRIPLETS` (code points) -/",
+        "def codonTriplets : List (List Nat) := [" + ", ".join(lean_char_list(t) for t in triplets) + "]",
         "",
         "end TTGen.C01",
         "",
